@@ -71,12 +71,6 @@ type node[S any, O any] struct {
 	st   S
 }
 
-type succ[S any, O any] struct {
-	parent, opi int
-	op          O
-	res         StepResult[S]
-}
-
 func (e *Engine[S, O]) Run() *Result[O] {
 	if e.Workers <= 0 {
 		e.Workers = 1
@@ -100,17 +94,18 @@ func (e *Engine[S, O]) Run() *Result[O] {
 	res.States = 1
 	vioSeen := map[string]bool{}
 	for depth := 0; depth < e.MaxDepth && len(frontier) > 0; depth++ {
-		// expand every node of the frontier in parallel, deterministic merge afterwards
-		type job struct{ ni int }
+		// expand every node of the frontier in parallel; successors are merged eagerly under a mutex so that memory
+		// is proportional to the NEW states only (which history represents a state may therefore differ between runs;
+		// every representative is a shortest path, and the set of states per depth is the same)
 		jobs := make(chan int, len(frontier))
 		for i := range frontier {
 			jobs <- i
 		}
 		close(jobs)
-		out := make([][]succ[S, O], len(frontier))
 		var stop bool
 		var mu sync.Mutex
-		var trans int64
+		var next []node[S, O]
+		expanded := 0
 		var wg sync.WaitGroup
 		for w := 0; w < e.Workers; w++ {
 			wg.Add(1)
@@ -125,72 +120,60 @@ func (e *Engine[S, O]) Run() *Result[O] {
 					}
 					n := frontier[ni]
 					ops := e.Enabled(n.st, n.hist)
-					ss := make([]succ[S, O], 0, len(ops))
 					for oi, op := range ops {
 						if depth == 0 && e.RootShards > 1 && oi%e.RootShards != e.RootShard {
 							continue
 						}
 						r := e.Step(w, n.hist, n.st, op)
-						ss = append(ss, succ[S, O]{parent: ni, opi: oi, op: op, res: r})
+						var hk [16]byte
+						if r.Violation == "" {
+							hk = hkey(r.Key)
+						}
+						mu.Lock()
+						res.Transitions++
+						name := ""
+						if e.OpName != nil {
+							name = e.OpName(op)
+						}
+						res.Outcomes[name+":"+r.Label]++
+						if r.Violation != "" {
+							k := r.VioKey
+							if k == "" {
+								k = r.Violation
+							}
+							if !vioSeen[k] && len(res.Violations) < e.MaxViolations {
+								vioSeen[k] = true
+								h := append([]O{}, n.hist...)
+								res.Violations = append(res.Violations, Violation[O]{Hist: h, Op: op, Message: r.Violation, Key: r.VioKey})
+							}
+						} else if _, dup := seen[hk]; !dup {
+							seen[hk] = struct{}{}
+							res.States++
+							if !r.NoExtend {
+								h := make([]O, len(n.hist)+1)
+								copy(h, n.hist)
+								h[len(h)-1] = op
+								next = append(next, node[S, O]{hist: h, st: r.Next})
+							}
+						}
+						if (e.MaxTrans > 0 && res.Transitions >= e.MaxTrans) || res.States > e.MaxStates {
+							stop = true
+						}
+						mu.Unlock()
 					}
-					out[ni] = ss
 					mu.Lock()
-					trans += int64(len(ss))
-					if (e.MaxTrans > 0 && res.Transitions+trans >= e.MaxTrans) || (!e.Deadline.IsZero() && time.Now().After(e.Deadline)) {
+					expanded++
+					if !e.Deadline.IsZero() && time.Now().After(e.Deadline) {
 						stop = true
-					}
-					if res.States+trans/2 > e.MaxStates*2 {
-						stop = true // successors are merged after the depth is expanded: bound the unmerged backlog too
 					}
 					mu.Unlock()
 				}
 			}(w)
 		}
 		wg.Wait()
-		var next []node[S, O]
-		complete := !stop
-		for ni := range frontier {
-			if out[ni] == nil {
-				complete = false
-				continue
-			}
-			for _, s := range out[ni] {
-				res.Transitions++
-				name := ""
-				if e.OpName != nil {
-					name = e.OpName(s.op)
-				}
-				res.Outcomes[name+":"+s.res.Label]++
-				if s.res.Violation != "" {
-					k := s.res.VioKey
-					if k == "" {
-						k = s.res.Violation
-					}
-					if !vioSeen[k] && len(res.Violations) < e.MaxViolations {
-						vioSeen[k] = true
-						h := append(append([]O{}, frontier[ni].hist...))
-						res.Violations = append(res.Violations, Violation[O]{Hist: h, Op: s.op, Message: s.res.Violation, Key: s.res.VioKey})
-					}
-					continue
-				}
-				hk := hkey(s.res.Key)
-				if _, ok := seen[hk]; ok {
-					continue
-				}
-				seen[hk] = struct{}{}
-				res.States++
-				if s.res.NoExtend {
-					continue
-				}
-				h := make([]O, len(frontier[ni].hist)+1)
-				copy(h, frontier[ni].hist)
-				h[len(h)-1] = s.op
-				next = append(next, node[S, O]{hist: h, st: s.res.Next})
-			}
-		}
-		if res.States > e.MaxStates && complete {
-			complete = false
-			res.CapHit = "state cap"
+		complete := !stop && expanded == len(frontier)
+		if !complete && expanded == len(frontier) && !(e.MaxTrans > 0 && res.Transitions >= e.MaxTrans) && res.States <= e.MaxStates && (e.Deadline.IsZero() || !time.Now().After(e.Deadline)) {
+			complete = true
 		}
 		res.PerDepth = append(res.PerDepth, int64(len(next)))
 		if len(next) > 0 {
@@ -201,14 +184,13 @@ func (e *Engine[S, O]) Run() *Result[O] {
 		}
 		if !complete {
 			res.Exhaustive = false
-			if res.CapHit == "" {
-				if e.MaxTrans > 0 && res.Transitions >= e.MaxTrans {
-					res.CapHit = "transition cap"
-				} else if res.States > e.MaxStates {
-					res.CapHit = "state cap"
-				} else {
-					res.CapHit = "time budget"
-				}
+			switch {
+			case e.MaxTrans > 0 && res.Transitions >= e.MaxTrans:
+				res.CapHit = "transition cap"
+			case res.States > e.MaxStates:
+				res.CapHit = "state cap"
+			default:
+				res.CapHit = "time budget"
 			}
 			break
 		}
